@@ -581,10 +581,10 @@ BARE_REFS = {}   # AHB expression without conditions -> its result, taken at the
 
 
 def bare_references():
+    H = harness()   # first: it imports ahbicht in an order that works (ahbicht.expressions.ahb_expression_evaluation cannot be the first module imported)
     from ahbicht.expressions.ahb_expression_evaluation import evaluate_ahb_expression_tree
     from ahbicht.expressions.ahb_expression_parser import parse_ahb_expression_to_single_requirement_indicator_expressions as parse
 
-    H = harness()
     for e in ("Muss", "Soll", "Kann", "X", "Muss Kann"):
         H.reset()
 
